@@ -132,7 +132,7 @@ func c09Judge(cs *core.Case, in []byte) bool {
 }
 
 func runC09(c *core.Ctx) {
-	c.Section("corpus", c.N(700000, 20000000), func(cs *core.Case) {
+	c.Section("corpus", c.N(700000, 60000000), func(cs *core.Case) {
 		in := corpusDatagram(cs.R)
 		if len(in) == 0 {
 			return
